@@ -239,16 +239,7 @@ impl Request {
     ensures WriteSpec::wchan(&w) == self.writer_chan(),     // the slot's writer (possibly wrapped in NotifyOnDrop, which forwards)
 //@endfn
 //@endimpl
-impl HeaderField {
-    pub closed spec fn name(&self) -> Seq<char> { self.0@ }
-}
-//@impl src/common.rs "HeaderField"
-//@fn equiv ret r
-//@assume
-//@spec
-    ensures r == eq_ic(other@, self.name()),
-//@endfn
-//@endimpl
+//@include contracts/common_api_assumed.inc
 
 //@fn src/request.rs new_request ret res
 //@assume
